@@ -123,6 +123,7 @@ def gen_responses(ns, rng, case):
     cls = qc.LinkLayerOKTypeM if okm else qc.LinkLayerOKTypeK
     creator = case["call"] in CREATE_CALLS
     pool = rng.sample(range(100, 100000), 12 * n)
+    phys = rng.sample(range(0, 1000), n)  # physical qubit ids: distinct among the live pairs
     out = []
     for i in range(n):
         d = {}
@@ -137,7 +138,7 @@ def gen_responses(ns, rng, case):
             d["measurement_basis"] = rng.choice([m.value for m in qc.Basis])
             d["measurement_outcome"] = rng.choice([0, 1])
         else:
-            d["logical_qubit_id"] = pool[i * 12 + 2] % 1000
+            d["logical_qubit_id"] = phys[i]
         out.append([d[f] for f in cls._fields])
     return out
 
